@@ -321,6 +321,15 @@ def _apply(o, a, op):
         names = a.get('dynnames') or ['nosuch']
         r = dyn.get_symbol_by_name(names[x % len(names)])
         return None if r is None else tuple((sy.name, dump.canon(sy.entry)) for sy in r)
+    if k in ('loclists_iter', 'rnglists_iter'):
+        obj = di.location_lists() if k == 'loclists_iter' else di.range_lists()
+        if obj is None:
+            return None
+        it = obj.iter_location_lists() if k == 'loclists_iter' else obj.iter_range_lists()
+        out = []
+        for lst in itertools.islice(it, 25):
+            out.append(tuple((type(e).__name__,) + tuple(dump.canon(tuple(e))) for e in lst))
+        return tuple(out)
     if k == 'aranges':
         ar = di.get_aranges()
         return None if ar is None else tuple(sorted(tuple(dump.canon(tuple(e))) for e in ar.entries))
@@ -338,7 +347,7 @@ def op_available(a, op):
         return a['nseg'] > 0
     if k in ('get_symbol', 'symbol_by_name'):
         return bool(a['symtabs'])
-    if k in ('get_CU_at', 'get_CU_containing', 'top_DIE', 'iter_DIEs_all', 'iter_CUs_all', 'line_program', 'cfi', 'eh_cfi', 'aranges', 'pubnames'):
+    if k in ('get_CU_at', 'get_CU_containing', 'top_DIE', 'iter_DIEs_all', 'iter_CUs_all', 'line_program', 'cfi', 'eh_cfi', 'aranges', 'pubnames', 'loclists_iter', 'rnglists_iter'):
         return bool(a['cus'])
     if k in ('refaddr', 'parent', 'children_all', 'siblings_all'):
         return bool(a['dies'])
@@ -579,7 +588,7 @@ def run_case(ctx, case):
 QUERY_OPS = ['num_sections', 'get_section', 'section_by_name', 'section_data', 'get_segment', 'notes', 'get_symbol', 'symbol_by_name', 'get_CU_at',
              'get_CU_containing', 'top_DIE', 'refaddr', 'parent', 'children_all', 'siblings_all', 'from_attribute', 'iter_DIEs_all', 'iter_CUs_all',
              'by_sig8', 'iter_TUs_all', 'line_program', 'cfi', 'eh_cfi', 'aranges', 'pubnames', 'cfi_kept', 'dyn_tags', 'dyn_num_symbols',
-             'dyn_symbol_by_name', 'dyn_symbols']
+             'dyn_symbol_by_name', 'dyn_symbols', 'loclists_iter', 'rnglists_iter']
 
 CORPUS = ['test/testfiles_for_unittests/lib_versioned64.so.1.elf', 'test/testfiles_for_unittests/dwarf_test_versions_mix.elf',
           'test/testfiles_for_unittests/simple_gcc.elf.arm', 'test/testfiles_for_unittests/dwarf_v5ops.so.elf',
